@@ -928,23 +928,29 @@ bool qlisttbl_save(qlisttbl_t *tbl, const char *filepath, char sepchar,
         return false;
     }
 
+    bool saved = true;
     char *gmtstr = qtime_gmt_str(0);
-    qio_printf(fd, -1, "# %s %s\n", filepath, gmtstr);
+    if (qio_printf(fd, -1, "# %s %s\n", filepath, (gmtstr) ? gmtstr : "") < 0) {
+        saved = false;
+    }
     free(gmtstr);
 
     qlisttbl_lock(tbl);
     qlisttbl_obj_t *obj;
-    for (obj = tbl->first; obj; obj = obj->next) {
+    for (obj = tbl->first; obj && saved; obj = obj->next) {
         char *encval;
         if (encode == true) encval = qurl_encode(obj->data, obj->size);
         else encval = obj->data;
-        qio_printf(fd, -1, "%s%c%s\n", obj->name, sepchar, encval);
+        if (encval == NULL
+            || qio_printf(fd, -1, "%s%c%s\n", obj->name, sepchar, encval) < 0) {
+            saved = false;
+        }
         if (encode == true) free(encval);
     }
     qlisttbl_unlock(tbl);
 
     close(fd);
-    return true;
+    return saved;
 }
 
 /**
